@@ -49,6 +49,10 @@ def run(ctx):
     ctx.tlc(SD, "KeepstorePut", "MC_C02.cfg", timeout=900,
             label="exhaustive: AllOrNothing in every state, contract obligations, no leftovers")
     if ctx.thorough:
+        r = ctx.tlc(SD, "KeepstorePut", "MC_C02_mut2.cfg", timeout=900, must_pass=False,
+                    label="non-vacuity: one temp name per block (shared by overlapping uploads) is refuted")
+        if r.violated != "AllOrNothing":
+            raise vlib.InfraError("MC_C02_mut2.cfg was expected to refute AllOrNothing:\n" + r.tail())
         r = ctx.tlc(SD, "KeepstorePut", "MC_C02_mut.cfg", timeout=900, must_pass=False,
                     label="non-vacuity: temp names that look like blocks are refuted")
         if r.violated != "ContractHolds":
@@ -64,7 +68,10 @@ def run(ctx):
             continue      # the model never reaches a write there either (Touch path / mkdir fails first)
         if s["rival"] != "" and not s["rdone"]:
             continue      # the rival's label was never reached: same as the scenario without rival
-        uniq.setdefault((s["pre"], s["n"], s["mode"], s["point"], s["occ"], s["rival"]), s)
+        if s["rival2"] != "" and s["rst"] not in ("abort", "finish"):
+            continue      # likewise for the stalling rival
+        s["rend"] = s["rst"] if s["rival2"] != "" else ""
+        uniq.setdefault((s["pre"], s["n"], s["mode"], s["point"], s["occ"], s["rival"], s["rival2"], s["rend"]), s)
     scns = list(uniq.values())
     # Concretisation of pre = corrupt_old: the corruption KIND (the contract does not care which).  Every kind is
     # used with every scenario that ends in an acknowledgement (mode none / killack); the other scenarios draw one.
@@ -80,6 +87,19 @@ def run(ctx):
             out += [dict(s, ck=k) for k in ks]
         else:
             out.append(dict(s, ck=rnd.choice(ks)))
+    scns = out
+    # The stalling rival: how far the second upload gets (its label rstop, always past its TempFile) before the first
+    # one resumes is a concretisation parameter - in the model the rival's steps touch nothing the first one can see
+    # (unique temp names).  Right after its TempFile always; one more, seeded; all of them in the thorough tier.
+    rstops = ["WriteBlock.lock", "WriteBlock.Copy", "WriteBlock.Write#1", "WriteBlock.tmpfile.Close", "WriteBlock.Chtimes"]
+    out = []
+    for s in scns:
+        if not s.get("rival2"):
+            out.append(s)
+            continue
+        ok = [r for r in rstops if not (r == "WriteBlock.Write#1" and s["n"] == 0)]
+        use = ok if ctx.thorough else [ok[0], rnd.choice(ok[1:])]
+        out += [dict(s, rstop=r) for r in use]
     scns = out
     # kill points the model does not know: every other label the source has on the PUT path
     for lab in extra_labels:
@@ -105,6 +125,12 @@ def run(ctx):
                      "steps": [{"a": st["a"], "l": st["l"]} for st in s["steps"]]})
     ctx.extra["index_schedules"] = len(idx)
     ctx.extra["rival_scenarios"] = sum(1 for s in scns if s.get("rival"))
+    ctx.extra["stalling_rival_scenarios"] = sum(1 for s in scns if s.get("rival2"))
+    if not ctx.thorough:
+        r2 = [s for s in scns if s.get("rival2")]
+        rnd.shuffle(r2)
+        drop = set(id(s) for s in r2[140:])
+        scns = [s for s in scns if id(s) not in drop]
     for i, s in enumerate(scns):
         s["id"] = i + 1
     by_id = {s["id"]: s for s in scns}
@@ -129,6 +155,10 @@ def run(ctx):
     pointed = [t[0] for t in traces if t[0]["mode"] in ("kill", "cancel", "werr")]
     skipped = [h for h in pointed if not h.get("reached")]
     ctx.extra["scenarios_skipped"] = len(skipped)
+    r2 = [t[0] for t in traces if t[0].get("rival2")]
+    ctx.extra["stalling_rival_applied"] = sum(1 for h in r2 if h.get("reached"))
+    if r2 and ctx.extra["stalling_rival_applied"] < len(r2) // 2:
+        ctx.drift.append("only %d of %d stalling-rival schedules could be applied" % (ctx.extra["stalling_rival_applied"], len(r2)))
     unexpected = [h for h in skipped if not by_id[h["scn"]].get("extra")]
     if unexpected:
         ctx.drift.append("%d model scenarios whose point was never reached (first: %s %s pre=%s n=%s)"
@@ -171,8 +201,9 @@ def run(ctx):
         h = t[0]
         if h["mode"] == "index":
             nontrivial.add(("index", h["pre"], h.get("ck", ""), tuple(h.get("order") or [])))
-        elif (h["mode"] != "none" or h.get("rival")) and h.get("reached"):
-            nontrivial.add((h["pre"], h.get("ck", ""), h["n"], h["mode"], h["point"], h["occ"], h.get("rival", "")))
+        elif (h["mode"] != "none" or h.get("rival") or h.get("rival2")) and h.get("reached"):
+            nontrivial.add((h["pre"], h.get("ck", ""), h["n"], h["mode"], h["point"], h["occ"], h.get("rival", ""),
+                            h.get("rival2", ""), h.get("rstop", ""), h.get("rend", "")))
     ctx.extra["distinct_nontrivial"] = len(nontrivial)
     ctx.extra["labels_reached"] = len(reached)
     ctx.rule = ("scenarios = (pre-existing copy none/intact/corrupt/directory/no block dir) x (0, 1, 3 chunks) x "
